@@ -192,7 +192,7 @@ def _last_args(body, kind, name, cname):
         m = None
         for m in re.finditer(r'(?:::|\b)%s\(' % re.escape(name), flat):
             pass
-        cands = [x for x in re.finditer(r'(?:::|[ (;\n])%s\(' % re.escape(name), flat) if 'checkArguments' not in flat[max(0, x.start() - 20):x.start()]]
+        cands = [x for x in re.finditer(r'(?:::|[ (;*\n])%s\(' % re.escape(name), flat) if 'checkArguments' not in flat[max(0, x.start() - 20):x.start()]]
         if not cands:
             return None
         j = cands[-1].end() - 1
